@@ -219,6 +219,8 @@ var frags = []*Frag{
 	{Name: "call-mixed-with-steps-and-shells", Assets: []string{"wf-opt"}, Jobs: []FragJob{{ID: "{P}cms", Body: "    uses: ./.github/workflows/reuse-opt.yml\n    steps:\n      - run: echo one\n        shell: cmd\n      - run: echo two\n        shell: sh\n"}}},
 	{Name: "windows-literal-label", Clean: true, Jobs: []FragJob{{ID: "{P}win", Body: "    runs-on: windows-latest\n    steps:\n      - run: echo one\n        shell: cmd\n      - run: echo two\n        shell: pwsh\n"}}},
 	{Name: "macos-literal-label", Clean: true, Jobs: []FragJob{{ID: "{P}mac", Body: "    runs-on: macos-latest\n    steps:\n      - run: echo one\n        shell: sh\n      - run: echo two\n        shell: bash\n"}}},
+	// workflow commands spelled in ways a runner may or may not accept: whatever the rule makes of them, it reports or keeps quiet
+	{Name: "workflow-commands-odd-spelling", Jobs: []FragJob{{ID: "{P}wco", Body: "    runs-on: ubuntu-latest\n    steps:\n      - run: echo '::SET-OUTPUT name=foo1::bar'\n      - run: |\n          echo \"::Save-State name=_x::1\"\n          echo \"::set-env name=A1::b\"\n          echo \"::ADD-PATH::/opt/x\"\n          echo \"::set-output name=9::v\"\n"}}},
 	{Name: "github-event-release", Jobs: []FragJob{{ID: "{P}ger", Body: "    runs-on: ubuntu-latest\n    steps:\n      - run: echo \"${{ github.event.release.tag_name }} ${{ github.event.action }} ${{ github.event.release.nope.deeper }}\"\n"}}},
 	// the arrays of an event payload, once with .* and once with a property taken from the array itself
 	{Name: "github-event-arrays-star", Jobs: []FragJob{{ID: "{P}gas", Body: "    runs-on: ubuntu-latest\n    steps:\n      - run: echo \"${{ join(github.event.commits.*.id, ',') }} ${{ join(github.event.pages.*.action, ',') }}\"\n"}}},
